@@ -10,18 +10,21 @@
 (* for REPLAY into pennylane.math.binary_*.                                *)
 (***************************************************************************)
 EXTENDS GF2, Json
-CONSTANT Shapes            \* set of <<m, n>>
+CONSTANTS Shapes,          \* set of <<m, n>>: every binary matrix of these shapes is enumerated
+          Extra            \* set of [m, n, A]: further (larger, seeded) matrices
 VARIABLES m, n, A, e, done
 vars == <<m, n, A, e, done>>
-Init == \E sh \in Shapes : /\ m = sh[1] /\ n = sh[2] /\ A \in Mats(m, n)
-                           /\ e = ElimInit(A, m) /\ done = FALSE
+Init == /\ \/ \E sh \in Shapes : m = sh[1] /\ n = sh[2] /\ A \in Mats(m, n)
+           \/ \E x \in Extra : m = x.m /\ n = x.n /\ A = x.A
+        /\ e = ElimInit(A, m) /\ done = FALSE
 Step == ~ElimDone(e, m, n) /\ e' = ElimStep(e, m, n) /\ UNCHANGED <<m, n, A, done>>
 BitsOf(k, w) == [i \in 1..w |-> (k \div 2^(w - i)) % 2]
 Sols == [k \in 1..2^m |-> LET b == BitsOf(k - 1, m)  ok == SolvableE(e, b, m) IN
             [b |-> b, ok |-> ok, x |-> IF ok THEN ParticularE(e, b, m, n) ELSE <<>>, ns |-> NumSolutionsE(e, b, m, n)]]
-Emit == /\ ElimDone(e, m, n) /\ ~done /\ done' = TRUE /\ UNCHANGED <<m, n, A, e>>
+\* (= TRUE keeps TLC from splitting the disjunction in ElimDone into two sub-actions, which would emit twice)
+Emit == /\ ElimDone(e, m, n) = TRUE /\ ~done /\ done' = TRUE /\ UNCHANGED <<m, n, A, e>>
         /\ PrintT(ToJson([m |-> m, n |-> n, A |-> A, rref |-> e.mat, rank |-> RankE(e), piv |-> e.piv,
-                          sols |-> Sols, kdim |-> n - RankE(e)]))
+                          sols |-> Sols, kern |-> KernelBasisE(e, n)]))
 Next == Step \/ Emit
 
 \* every elimination step is a row operation: row space preserved, transformation tracked
@@ -29,20 +32,20 @@ StepInv == /\ RowSpace(e.mat, m, n) = RowSpace(A, m, n)
            /\ MatMul(e.T, A, m, m, n) = e.mat
            /\ RankE(e) = e.r - 1
 \* (ELIM) = (BF) when the elimination has finished
-RrefAgree == ElimDone(e, m, n) => /\ e.mat = RrefBF(A, m, n) /\ IsRREF(e.mat, m, n)
+RrefAgree == done => /\ e.mat = RrefBF(A, m, n) /\ IsRREF(e.mat, m, n)
                                   /\ \A R \in {A} : IsRREF(R, m, n) => R = e.mat     \* an RREF input is a fixpoint
-RankAgree == ElimDone(e, m, n) => /\ RankE(e) = RankBF(A, m, n) /\ RankE(e) = ColRankBF(A, m, n)
-SolveAgree == ElimDone(e, m, n) =>
+RankAgree == done => /\ RankE(e) = RankBF(A, m, n) /\ RankE(e) = ColRankBF(A, m, n)
+SolveAgree == done =>
   \A b \in Vecs(m) : LET S == Solutions(A, b, m, n) IN
      /\ SolvableE(e, b, m) <=> S # {}
      /\ SolvableE(e, b, m) <=> b \in ColSpace(A, m, n)
      /\ SolvableE(e, b, m) => ParticularE(e, b, m, n) \in S
      /\ Cardinality(S) = NumSolutionsE(e, b, m, n)
-KernelAgree == ElimDone(e, m, n) =>
+KernelAgree == done =>
   LET kb == KernelBasisE(e, n)  k == n - RankE(e) IN
      /\ Len(kb) = k /\ RowSpace(kb, k, n) = Kernel(A, m, n) /\ Cardinality(Kernel(A, m, n)) = 2^k
 \* the pivot columns are the greedy left-to-right column basis
-GreedyAgree == ElimDone(e, m, n) =>
+GreedyAgree == done =>
   \A j \in 1..n : (\E i \in 1..RankE(e) : e.piv[i] = j)
                   <=> IndependentBF(Col(A, j, m), [i \in 1..m |-> SubSeq(A[i], 1, j - 1)], m, j - 1)
 =============================================================================
